@@ -10,6 +10,7 @@ package main
 import (
 	"bytes"
 	"fmt"
+	"golang.org/x/sys/unix"
 	"os"
 	"path/filepath"
 	"runtime/debug"
@@ -439,6 +440,7 @@ type pairCase struct {
 	conns   int
 	a, b    []string
 	outputs int
+	umask   int // != 0: the process runs with this file mode creation mask (queue directories are created 0750 / 0700)
 }
 
 func q(t []string) string { return fmt.Sprintf("%q", t) }
@@ -454,6 +456,10 @@ func inList(s string, list []string) bool {
 
 // runPair executes one case; returns the first violation (key, msg).
 func runPair(pc pairCase) (string, string) {
+	if pc.umask != 0 {
+		old := unix.Umask(pc.umask)
+		defer unix.Umask(old)
+	}
 	root := hutil.ScratchRoot("seqkeys")
 	defer os.RemoveAll(root)
 	logCap.Reset()
@@ -706,6 +712,26 @@ func enumerate(ctx *seq.Ctx) {
 						}
 					}
 				}
+			}
+		}
+	}
+	// restrictive file mode creation masks (a daemon's usual 027 / 077): routing, queueing and above all the reattachment of
+	// queued chunks at startup must not depend on the permission bits the queue directories were created with
+	for _, um := range []int{0o027, 0o077} {
+		ctx.Group(fmt.Sprintf("keys1/umask%03o", um))
+		total := pow(len(sigma), 1)
+		for i := 0; i < total; i++ {
+			for j := 0; j < total; j++ {
+				if i == j {
+					continue
+				}
+				if !ctx.Mine() {
+					ctx.Skip()
+					continue
+				}
+				pc := pairCase{n: 1, tmpl: templates[0], conns: 1, a: tupleOf(1, i), b: tupleOf(1, j), outputs: 1, umask: um}
+				id := fmt.Sprintf("umask%03o/k1/t0/c1/o1/%d-%d", um, i, j)
+				ctx.Case(id, true, fmt.Sprintf("umask=%03o keys=1 first=%s second=%s", um, q(pc.a), q(pc.b)), func() (string, string) { return runPair(pc) })
 			}
 		}
 	}
